@@ -65,7 +65,7 @@ func (x *Exec) doMakeChan(fr *Frame, st *State, ins *ssa.MakeChan) Value {
 func (x *Exec) chanCap(st *State, ch *Term) *Term { return gSel(st, "chCap", ch) }
 
 // chanEvent runs `on makechan|send|recv|close (c, v)` monitors of the function under verification.
-func (x *Exec) chanEvent(fr *Frame, st *State, what string, c, v *Term, ins ssa.Instruction) {
+func (x *Exec) chanEvent(fr *Frame, st *State, what string, c, v *Term, ins ssa.Instruction, extra ...*Term) {
 	con := fr.top.con
 	if con == nil {
 		return
@@ -88,6 +88,10 @@ func (x *Exec) chanEvent(fr *Frame, st *State, what string, c, v *Term, ins ssa.
 		}
 		if len(m.Params) > 1 && m.Params[1] != "_" && v != nil {
 			env.vars[m.Params[1]] = SVal{T: v, GT: goTypeOfSort[v.Sort]}
+		}
+		// recv: an optional third parameter is the ok flag (false: the channel was closed and drained)
+		if len(m.Params) > 2 && m.Params[2] != "_" && len(extra) > 0 {
+			env.vars[m.Params[2]] = SVal{T: extra[0]}
 		}
 		x.runGhost(st, env, m.Stmts, "chan:"+what, x.site(fr, ins))
 	}
@@ -140,7 +144,7 @@ func (x *Exec) recvFrom(fr *Frame, st *State, c *Term, elem types.Type, ins ssa.
 	if vv.T.Sort == sortIface {
 		gSet(st, "chErrSeen", c, Or(gSel(st, "chErrSeen", c), And(okT, Not(Eq(Acc(vv.T, 0), Int(0))))))
 	}
-	x.chanEvent(fr, st, "recv", c, vv.T, ins)
+	x.chanEvent(fr, st, "recv", c, vv.T, ins, okT)
 	return vv.T, okT
 }
 
